@@ -262,9 +262,9 @@ var allPercents = []int64{-50, -12, -11, -10, -9, -8, -5, -1, 0, 1, 5, 9, 10, 11
 
 func QuickPriceBounds() PriceBounds {
 	return PriceBounds{
-		States:    []oldSpec{{18, false, 1, 1000000}, {24, true, 1, 20}, {24, false, 1, 1}, {30, false, 1000, 1}},
+		States:    []oldSpec{{18, false, 1, 1000000}, {24, true, 1, 20}, {30, false, 1000, 1}},
 		SeqStates: []oldSpec{{24, false, 1, 20}, {24, true, 1, 1}},
-		RootMags:  []int{18, 20, 21, 24, 27, 30}, RootPrices: allPrices,
+		RootMags:  []int{18, 24, 30}, RootPrices: allPrices,
 		Percents: allPercents, SeqMenu: []int64{-11, -10, -9, 0, 5}, SeqLen: 3}
 }
 func ThoroughPriceBounds() PriceBounds {
